@@ -11,7 +11,7 @@ RULE = ("cases = every 1-D array of length 1..Lmax over a 2-4 letter alphabet pe
 ASSUMPTIONS = ["oracle: the dense array itself (element-wise ==, NaN matches NaN, dtype, length/size/shape)",
                "canonical form is read through the public starts / ends / values / len only",
                "'no equal adjacent values' is demanded exactly for the producers the statement lists: encoding, stepped slicing, ufuncs on two run-length operands"]
-REQUIRED_FEATURES = ["input_not_contiguous", "single_run", "all_different", "nan_values", "signed_zero", "producer_slice", "producer_step", "producer_binary", "producer_concat",
+REQUIRED_FEATURES = ["input_not_contiguous", "producer_binary_nan", "single_run", "all_different", "nan_values", "signed_zero", "producer_slice", "producer_step", "producer_binary", "producer_concat",
                      "producer_mask", "result_needed_rejoin", "producer_step_of_unjoined_operand"]
 BOUNDS = {"quick": "all arrays L<=6 (bool, int8, int64, uint8, uint64, float16/32/64; 3-letter alphabets, 4 for float32/64 at L<=5); producers over all "
                    "int64 arrays L<=4: every in-range slice with steps +-1..3, add/maximum/equal of every pair (L<=3), scalar ops, concatenate pairs, run-length masks",
@@ -155,6 +155,16 @@ def _check_prod(case, acc):
             acc.feature("producer_binary")
             for uname, u in (("add", np.add), ("maximum", np.maximum), ("equal", np.equal), ("multiply", np.multiply)):
                 _prod_check(acc, f"binary-{uname}", lambda: u(mk(), mk(b)), u(a, b), joined=True)
+        # float operands with NaN / inf: a boundary shared by both operands where the result is NaN (NaN != NaN) must not leave an empty run
+        fv = np.array([float("nan"), float("inf"), 1.0])
+        fa = fv[a % 3]
+        for t2 in itertools.product(range(3), repeat=L):
+            fb = fv[np.array(t2)]
+            acc.feature("producer_binary_nan")
+            for uname, u in (("add", np.add), ("subtract", np.subtract), ("maximum", np.maximum)):
+                with np.errstate(all="ignore"):
+                    e = u(fa, fb)
+                _prod_check(acc, f"binary-{uname}-nan", lambda: u(mk(fa), mk(fb)), e, joined=True)
         for L2 in (1, 2):
             for t2 in itertools.product(range(3), repeat=L2):
                 b = np.array(t2, dtype=np.int64)
